@@ -99,7 +99,7 @@ def run(ctx: Ctx) -> None:  # noqa: C901, PLR0912, PLR0915
     work = ctx.work / "corpus"
     work.mkdir(parents=True, exist_ok=True)
     sources = [("c07hand", ad.HAND, ["h_try", "h_nested", "h_nested.inner", "h_match", "h_gen"], True)]
-    for i in range(8 if ctx.quick else 60):
+    for i in range(8 if ctx.quick else 45):
         pg = ad.ProgGen(rng, depth=rng.choice([2, 2, 3]))
         src = pg.module(rng.randint(3, 5))
         sources.append((f"c07gen_{i}", src, pg.names, False))
@@ -168,7 +168,7 @@ def run(ctx: Ctx) -> None:  # noqa: C901, PLR0912, PLR0915
     dyn_traces, dyn_src = [], []
     if usable:
         sims = ctx.simulate("MC_GoalsManager", "MC_GoalsManager_sim.cfg",
-                            num=150 if ctx.quick else 600, depth=90 if ctx.quick else 120, env={"GRAPHS_FILE": str(gfile)})
+                            num=100 if ctx.quick else 400, depth=75 if ctx.quick else 120, env={"GRAPHS_FILE": str(gfile)})
         seen = set()
         for st in sims:
             gi = st["gi"]
@@ -186,7 +186,9 @@ def run(ctx: Ctx) -> None:  # noqa: C901, PLR0912, PLR0915
             dyn_src.append((i, hist))
             ctx.nontriv(("order", gi, json.dumps(hist)))
         # plus the canonical complete order on every graph: always cover the first current goal
-        for gi, i in enumerate(usable, start=1):
+        cap = 40 if ctx.quick else 150
+        canon = usable if len(usable) <= cap else sorted(rng.sample(usable, cap))
+        for i in canon:
             sp, order = keep[i]
             e = events[i]
             hist = first_current_order(ad, sp, order, len(e["goals"]))
